@@ -106,6 +106,7 @@ EffQ(S, e, dr, fl) ==
     [] e.k = "cancelall" -> CancelAllEffQ(Z(S), e.sym, dr)
     [] e.k = "prune" -> PruneEff(Z(S), e.sym)
     [] e.k = "price" -> PriceEff(Z(S), e.sym, e.p)
+    [] e.k = "obs" -> S                         \* observation point: nothing was called
 R(v, k) == [v |-> v, k |-> k]
 \* compare the logged post-state with the intended effect; name the deviation when it is one of the quirks
 Both0(S, e, P, pk) ==
@@ -144,7 +145,7 @@ Judge(S, e, pk) ==
             ELSE IF ~e.acc THEN R("ok", k)
             ELSE LET b == Both(S, e, P, pk) IN R(b.v, IF k # "" THEN k ELSE b.k)
   ELSE IF e.k = "submit" /\ ~e.acc THEN R("ok", "")
-  ELSE IF e.k \in {"submit", "cancel", "exec", "flush", "cancelall", "prune", "price"} THEN Both(S, e, P, pk)
+  ELSE IF e.k \in {"submit", "cancel", "exec", "flush", "cancelall", "prune", "price", "obs"} THEN Both(S, e, P, pk)
   ELSE R("log:unknown-event", "")
 
 \* in-vivo traces (hdr.haspre): other things happen between two order calls, so every event carries the state
@@ -161,7 +162,7 @@ TInit == /\ tid \in 1..Len(Traces) /\ l = 1 /\ hist = <<>> /\ known = {}
                        ELSE IF Traces[tid].hdr.judgeinit /\ PostChecks(Traces[tid].init, FromLog(Traces[tid].init)) # "ok"
                             THEN "init:" \o PostChecks(Traces[tid].init, FromLog(Traces[tid].init)) ELSE "ok")
 TStep == /\ verdict = "ok" /\ l <= Len(Ev(tid))
-         /\ LET e == Ev(tid)[l]  j == Judge(PreOf(e), e, PokOf(e)) IN
+         /\ LET e == Ev(tid)[l]  j == Judge(PreOf(e), e, IF e.k = "obs" THEN pok ELSE PokOf(e)) IN
               /\ verdict' = j.v
               /\ known' = IF j.k = "" THEN known ELSE known \cup {j.k}
               /\ st' = FromLog(e.post)
